@@ -75,6 +75,29 @@ def impl(case):
                 if list(res.columns) != list(outputs) or vals.shape != (len(res.index), case["nn"]):
                     return {"raised": "BadFrame", "msg": f"columns={list(res.columns)} shape={vals.shape}"}
                 return {"rows": [[_fr(t)] + [_fr(v) for v in row] for t, row in zip(res.index.values, vals)]}
+            if case.get("via_run"):
+                # run(solver='scipy'): the integrator is replaced by a stub that evaluates the vector field run() built (with
+                # T = simulation_time handed to the input nodes) at the case's times and returns a constant trajectory
+                import scipy.integrate as _si
+                cap, orig = {}, _si.solve_ivp
+                def stub(fun=None, t_span=None, y0=None, args=(), t_eval=None, **kw):
+                    y = np.array(y0, dtype=np.float64).reshape(-1)
+                    cap["y"] = y.copy()
+                    cap["rows"] = [np.array(fun(np.float64(float(Fr(t))), y.copy(), *args), dtype=np.float64).reshape(-1).copy() for t in case["ts"]]
+                    return {"y": np.tile(y.reshape(-1, 1), (1, len(t_eval)))}
+                _si.solve_ivp = stub
+                try:
+                    c.run(simulation_time=float(Fr(case["T"])), step_size=float(Fr(case["dt"])), solver="scipy", inputs=inputs or None,
+                          outputs={f"o{i}": f"{pre}n{case['names'][i]}/op/x" for i in range(case["nn"])}, vectorize=case["vectorize"],
+                          in_place=False, verbose=False, clear=True, float_precision="float64", backend="default")
+                finally:
+                    _si.solve_ivp = orig
+                y, pos = cap["y"], []
+                for i in range(case["nn"]):
+                    hits = [k for k in range(len(y)) if y[k] == float(Fr(case["x0"][i]))]
+                    assert len(hits) == 1, (y.tolist(), case["x0"])
+                    pos.append(hits[0])
+                return {"rows": [[_fr(dy[p]) for p in pos] for dy in cap["rows"]]}
             func, args, names, smap = c.get_run_func("vf", step_size=float(Fr(case["dt"])), inputs=inputs or None, solver="scipy",
                                                      vectorize=case["vectorize"], in_place=False, verbose=False, clear=False,
                                                      float_precision="float64", backend="default", file_name="vfm")
@@ -246,6 +269,9 @@ def gen_adaptive(rng):
     vectorize = rng.random() < 0.6
     x0, W, names = gen_net(rng, nn)
     T = N * dt                                     # what get_run_func passes to create_input_node
+    via_run = rng.random() < 0.4
+    if via_run:                                    # run() passes simulation_time: N samples on [0, T] with T/dt != N steps
+        T = (N - 1) * dt * rng.choice([1, 2, 4])
     h = T / (N - 1)
     ts = []
     for _ in range(6):
@@ -256,7 +282,7 @@ def gen_adaptive(rng):
             ts.append(h * rng.randint(0, N - 2) + h * Fr(rng.randint(1, 7), 8))   # strictly between
         else:
             ts.append(rng.choice([Fr(-1, 2), T, T + 1, T - h / 4, Fr(0)]))        # clamped / last interval
-    case = dict(kind="adaptive", solver="scipy", udef=str(rng.choice([0, 0, Fr(1, 2), 1, -1])), prelude=(not vectorize) and rng.random() < 0.3, vectorize=vectorize, depth=rng.choice([0, 0, 1, 2, 3]), T=str(T), dt=str(dt), nn=nn,
+    case = dict(kind="adaptive", via_run=via_run, solver="scipy", udef=str(rng.choice([0, 0, Fr(1, 2), 1, -1])), prelude=(not vectorize) and rng.random() < 0.3, vectorize=vectorize, depth=rng.choice([0, 0, 1, 2, 3]), T=str(T), dt=str(dt), nn=nn,
                 x0=[str(v) for v in x0], W=[[str(v) for v in r] for r in W], names=names, ts=[str(t) for t in ts],
                 inputs=gen_inputs(rng, nn, vectorize, N, allow_bad=False))
     dedup_targets(case)
@@ -277,14 +303,15 @@ HEADER = """From Coq Require Import List ZArith QArith Qcanon Bool Arith.
 From PV Require Import History Solver Interp Inputs Corr.
 Import ListNotations.
 Local Open Scope nat_scope.
-Record tcase := { adaptive : bool; sv : solver; vec : bool; cdepth : nat; cT : Qc; cdt : Qc; cdts : option Qc; ccut : Qc; cudef : Qc; cW : list row;
+Record tcase := { adaptive : bool; viarun : bool; sv : solver; vec : bool; cdepth : nat; cT : Qc; cdt : Qc; cdts : option Qc; ccut : Qc; cudef : Qc; cW : list row;
                   cin : list (arr * list nat); cx0 : row; cts : list Qc }.
 Definition dts_of c := match cdts c with Some d => d | None => cdt c end.
 Fixpoint collect (l : list (option row)) : option (list row) :=
   match l with [] => Some [] | Some r :: l' => option_map (cons r) (collect l') | None :: _ => None end.
 Definition implO (c : tcase) : outcome :=
   if adaptive c then
-    match collect (map (fun t => vf_adaptive (cdt c) (cudef c) (cW c) (cin c) t (cx0 c)) (cts c)) with Some rows => Rows rows | None => ErrShape end
+    match collect (map (fun t => if viarun c then vf_adaptive_run (cT c) (cudef c) (cW c) (cin c) t (cx0 c)
+                                 else vf_adaptive (cdt c) (cudef c) (cW c) (cin c) t (cx0 c)) (cts c)) with Some rows => Rows rows | None => ErrShape end
   else run_inputs (sv c) (vec c) (cdepth c) (cT c) (cdt c) (cdts c) (ccut c) (cudef c) (cW c) (cin c) (cx0 c).
 Definition specO (c : tcase) : outcome :=
   if adaptive c then implO c      (* the adaptive Spec is interp_np on linspace itself: see C08.v for what it means *)
@@ -309,7 +336,7 @@ def coq_case(case, out):
     for inp in case["inputs"]:
         a = f"(A1 {row(inp['data'])})" if inp["shape"] == "1d" else f"(A2 {clist([row(r) for r in inp['data']])})"
         ins.append(f"({a}, {clist([cnat(i) for i in addressed(case, inp)])})")
-    t = (f"{{| adaptive := {cbool(case['kind'] == 'adaptive')}; sv := {'Heun' if case['solver'] == 'heun' else 'Euler'}; "
+    t = (f"{{| adaptive := {cbool(case['kind'] == 'adaptive')}; viarun := {cbool(bool(case.get('via_run')))}; sv := {'Heun' if case['solver'] == 'heun' else 'Euler'}; "
          f"vec := {cbool(case['vectorize'])}; cdepth := {cnat(case['depth'])}; cT := {cq(case['T'])}; cdt := {cq(case['dt'])}; cdts := {copt(case.get('dts'), cq)}; ccut := {cq(case.get('cutoff', 0))}; cudef := {cq(case.get('udef', 0))}; "
          f"cW := {clist([row(r) for r in case['W']])}; cin := {clist(ins)}; cx0 := {row(case['x0'])}; "
          f"cts := {row(case.get('ts', []))} |}}")
@@ -402,7 +429,7 @@ def check(ctx):
     # a single-sample array inside the contract (one step): known finding `single_sample`, attributed when the code fails as modelled
     guard_viol = {i: ["multi_sample"] for i in nomulti if i not in noscope and i not in badI}
     ctx.note(f"E1: {len(cases)} cases ({sum(1 for c in cases if c['kind'] == 'fixed')} run(euler/heun, inputs), "
-             f"{sum(1 for c in cases if c['kind'] == 'adaptive')} get_run_func(scipy, inputs)); impl-vs-Impl mismatches {len(badI)}, "
+             f"{sum(1 for c in cases if c['kind'] == 'adaptive')} get_run_func(scipy, inputs), of which {sum(1 for c in cases if c.get('via_run'))} through run(solver='scipy') with a stubbed integrator); impl-vs-Impl mismatches {len(badI)}, "
              f"impl-vs-Spec mismatches {len(badS)} (of which outside the guard: {sum(1 for i in badS if i in guard_viol)}), "
              f"unexpected exceptions/worker errors {len(crashed)}")
     def witness_check(f):
